@@ -15,6 +15,7 @@ type trafficStats struct {
 	mu      sync.Mutex
 	ok      int
 	refused int
+	reset   int
 	broken  int
 	stale   int
 }
@@ -29,15 +30,19 @@ func (r *runner) hammer(a int, stop <-chan struct{}, wg *sync.WaitGroup) {
 			return
 		default:
 		}
-		lo := r.lo.Load()
+		lo, e0 := r.lo.Load(), r.epoch.Load()
 		ans, g, detail := r.env.get(a, "/id", probeTimeout)
-		hi := r.hi.Load()
+		hi, e1 := r.hi.Load(), r.epoch.Load()
 		r.traffic.mu.Lock()
 		switch {
 		case g < 0 && (ans == ansRefused || ans == ansNoEnt):
 			r.traffic.refused++
 			r.traffic.mu.Unlock()
 			r.fail("traffic-connection-refused", fmt.Sprintf("background connection to retained address %s during load %d: %s (%s)", addrNames[a], hi, ans, detail))
+		case g < 0 && ans == ansReset && !isUnix(a) && (e0%2 == 1 || e0 != e1):
+			r.traffic.reset++
+			r.traffic.mu.Unlock()
+			r.fail("tcp-connection-reset-while-listener-closes", fmt.Sprintf("background connection to retained address %s during load %d, while the replaced config's listener on it was being closed: %s", addrNames[a], hi, detail))
 		case g < 0:
 			r.traffic.broken++
 			r.traffic.mu.Unlock()
@@ -193,6 +198,7 @@ func (r *runner) execute() {
 		} else {
 			r.waitDrained(k)
 		}
+		r.closeWindow()
 		r.lo.Store(int64(r.curGen))
 		r.hi.Store(int64(r.curGen))
 		r.record('D', k, "", true)
@@ -229,12 +235,14 @@ func (r *runner) execute() {
 	r.swapped = false
 	r.startTokens(n)
 	r.record('L', n, "", true)
+	r.openWindow()
 	_ = caddy.Stop()
 	r.results = append(r.results, "ok")
 	r.record('R', n, "ok", true)
 	r.releaseAt('r')
 	r.waitDrained(r.curGen)
 	r.curGen = -1
+	r.closeWindow()
 	r.record('D', n, "", true)
 	r.releaseAt('d')
 	r.releaseAll()
